@@ -20,6 +20,12 @@
  *
  * hex_get_byte's loops are formed with goto and run over caller-sized data: they are unwound with unwinding
  * assertions, so everything here is a bounded stand-in (LMAX characters, MMAX bytes); see run/props/C18.py.
+ *
+ * Partitioning (run/props/C18.py): each query fixes, by -D, the string length (NFIX), first call or continuation
+ * (FIRSTFIX), the resume offset (OFFFIX), live or ended sequence (NULLFIX), respectively the array length (MFIX);
+ * LMAX / MMAX are then set to that length.  All partitions of a tier are run, so their union is the whole bounded
+ * universe; contents (every character / byte value) stay symbolic in every query.  Without these macros the
+ * harnesses are the unpartitioned versions of the same obligations.
  */
 #include <ctype.h>
 #include <stdio.h>
